@@ -222,6 +222,9 @@ pub fn ops_case(ctx: &mut Ctx, fl: Flavour, ops: &[AOp], dgrams: &[Vec<u8>]) {
     }
 }
 
+/// when set, the connection re-sends its IS_ISI (handshake) after the first packet of every multi-packet datagram
+static MID_HANDSHAKE: std::sync::atomic::AtomicBool = std::sync::atomic::AtomicBool::new(false);
+
 /// connection level: packets over a real loopback socket pair, lock-step, arbitrarily long sessions
 pub fn session_case(ctx: &mut Ctx, fl: Flavour, compressed: bool, dgrams: &[Vec<Vec<u8>>], label: &str) {
     let frames: Vec<Vec<u8>> = dgrams.iter().flatten().cloned().collect();
@@ -244,11 +247,12 @@ pub fn session_case(ctx: &mut Ctx, fl: Flavour, compressed: bool, dgrams: &[Vec<
             let mut buf = [0u8; 2048];
             for (i, d) in dg2.iter().enumerate() {
                 peer.send(d).unwrap();
-                for _ in 0..per[i] {
+                for k in 0..per[i] {
                     match f.read() {
                         Ok(p) => out.push(format!("pkt {}", cls_token(&p))),
                         Err(e) => out.push(err_token(&e, false)),
                     }
+                    if k == 0 && per[i] > 1 && MID_HANDSHAKE.load(std::sync::atomic::Ordering::Relaxed) { let _ = f.handshake(insim::insim::Isi::default()); }
                 }
                 // collect the replies as they arrive: the peer's socket buffer is finite and the operating system
                 // drops datagrams that do not fit, which would be the harness's loss, not the library's
@@ -272,12 +276,13 @@ pub fn session_case(ctx: &mut Ctx, fl: Flavour, compressed: bool, dgrams: &[Vec<
                 let mut buf = [0u8; 2048];
                 'outer: for (i, d) in dg2.iter().enumerate() {
                     peer.send(d).unwrap();
-                    for _ in 0..per[i] {
+                    for k in 0..per[i] {
                         match tokio::time::timeout(Duration::from_millis(300), f.read()).await {
                             Ok(Ok(p)) => out.push(format!("pkt {}", cls_token(&p))),
                             Ok(Err(e)) => out.push(err_token(&e, false)),
                             Err(_) => { out.push("stalled".into()); break 'outer; },
                         }
+                        if k == 0 && per[i] > 1 && MID_HANDSHAKE.load(std::sync::atomic::Ordering::Relaxed) { let _ = f.handshake(insim::insim::Isi::default(), Duration::from_secs(2)).await; }
                     }
                     peer.set_nonblocking(true).unwrap();
                     while let Ok(n) = peer.recv(&mut buf) { replies.push(buf[..n].to_vec()); }
@@ -288,7 +293,7 @@ pub fn session_case(ctx: &mut Ctx, fl: Flavour, compressed: bool, dgrams: &[Vec<
             })
         })),
     };
-    let input = format!("udp.session {} {} {}", fl.tok(), mode_tok(compressed), dgrams.iter().map(|d| join_hex(d)).collect::<Vec<_>>().join("/"));
+    let input = format!("{} {} {} {}", if MID_HANDSHAKE.load(std::sync::atomic::Ordering::Relaxed) { "udp.session.rehs" } else { "udp.session" }, fl.tok(), mode_tok(compressed), dgrams.iter().map(|d| join_hex(d)).collect::<Vec<_>>().join("/"));
     match got {
         None => ctx.violation(&format!("c08/session/{}/panic", fl.tok()), "UDP session panicked", &input, "packets", "panic"),
         Some((out, replies)) => {
@@ -299,6 +304,8 @@ pub fn session_case(ctx: &mut Ctx, fl: Flavour, compressed: bool, dgrams: &[Vec<
                     &format!("{} packets; first difference at packet {} after {} of {} bytes: {:?}", want.len(), first, bytes_before, total_bytes, want.get(first)),
                     &format!("{:?}", out.get(first)));
             }
+            // the handshakes the session sent on purpose are not replies
+            let replies: Vec<Vec<u8>> = replies.into_iter().filter(|r| !(MID_HANDSHAKE.load(std::sync::atomic::Ordering::Relaxed) && r.get(1) == Some(&1))).collect();
             let pong = vec![size_byte(compressed, 4), 3, 0, 0];
             if out == want && (replies.len() != n_ka || replies.iter().any(|r| *r != pong)) {
                 ctx.violation(&format!("c08/write/{}/datagrams", fl.tok()), "a written packet did not leave as exactly one datagram holding exactly its frame", &input, &format!("{} x {}", n_ka, hex(&pong)), &join_hex(&replies));
@@ -371,9 +378,11 @@ pub fn run(ctx: &mut Ctx) {
                     let d: Vec<Vec<u8>> = if *dg == "-" { vec![] } else { dg.split('+').map(unhex).collect() };
                     ops_case(ctx, fl(f), &o, &d);
                 },
-                ["udp.session", f, m, dg] => {
+                ["udp.session", f, m, dg] | ["udp.session.rehs", f, m, dg] => {
                     let d: Vec<Vec<Vec<u8>>> = dg.split('/').map(|x| x.split('+').map(unhex).collect()).collect();
+                    MID_HANDSHAKE.store(w[0] == "udp.session.rehs", std::sync::atomic::Ordering::Relaxed);
                     session_case(ctx, fl(f), *m == "c", &d, "replay");
+                    MID_HANDSHAKE.store(false, std::sync::atomic::Ordering::Relaxed);
                 },
                 ["udp.write", f, m, frames] => {
                     let d: Vec<Vec<u8>> = frames.split('+').map(unhex).collect();
@@ -484,6 +493,14 @@ pub fn run(ctx: &mut Ctx) {
                 if !d.is_empty() { dg.push(d); }
             }
             session_case(ctx, fl, compressed, &dg, "several-per-datagram");
+            // a handshake re-sent after the first packet of every datagram: the rest of that datagram is still delivered
+            {
+                let ping2 = vec![size_byte(compressed, 4), 3, 2, 3];
+                let dg: Vec<Vec<Vec<u8>>> = (0..6).map(|i| vec![ping2.clone(), vec![size_byte(compressed, 4), 3, 10 + i as u8, 3], ka.clone(), ping2.clone()]).collect();
+                MID_HANDSHAKE.store(true, std::sync::atomic::Ordering::Relaxed);
+                session_case(ctx, fl, compressed, &dg, "handshake-mid-datagram");
+                MID_HANDSHAKE.store(false, std::sync::atomic::Ordering::Relaxed);
+            }
             // long session far beyond the 6120-byte receive buffer, large datagrams
             if !big.is_empty() {
                 let n = if quick { 120 } else { 3000 };
